@@ -175,7 +175,7 @@ pub fn run_stroke_geo(l: &[i128]) -> Vec<i128> {
                     len += lv;
                     j += 1;
                 }
-                if turn_sum > 0.3 {
+                if turn_sum > 0.52 {
                     tight = true;
                 }
             }
@@ -209,6 +209,66 @@ pub fn run_stroke_geo(l: &[i128]) -> Vec<i128> {
                         uncovered += 1;
                         if first[2] == 0 {
                             first = [(x * 1000.0) as i128, (y * 1000.0) as i128, 1];
+                        }
+                    }
+                }
+            }
+        }
+    }
+    // ---- the body of every curve segment (under the curvature side-condition, i.e. when the path is not `tight`): points of the
+    // curve and points half way to the offset curves on both sides must be covered
+    if r - tol > 0.0 && !tight {
+        for (_, segs) in &contours_cp {
+            for cp in segs {
+                let n = cp.len();
+                if n < 3 {
+                    continue;
+                }
+                // closer to the two ends only when a round / square cap (or a join) continues the stroke there: a butt cap ends at
+                // the end normal, which a probe taken from the normal at t = 1/64 may lie just beyond
+                let mut ts_: Vec<f64> = (1..16).map(|i| i as f64 / 16.0).collect();
+                if cap_i != 0 {
+                    ts_.extend([1.0 / 64.0, 1.0 / 32.0, 31.0 / 32.0, 63.0 / 64.0]);
+                }
+                for t in ts_ {
+                    let u = 1.0 - t;
+                    let (p, d) = if n == 3 {
+                        (
+                            (u * u * cp[0].0 + 2.0 * u * t * cp[1].0 + t * t * cp[2].0, u * u * cp[0].1 + 2.0 * u * t * cp[1].1 + t * t * cp[2].1),
+                            (2.0 * u * (cp[1].0 - cp[0].0) + 2.0 * t * (cp[2].0 - cp[1].0), 2.0 * u * (cp[1].1 - cp[0].1) + 2.0 * t * (cp[2].1 - cp[1].1)),
+                        )
+                    } else {
+                        (
+                            (
+                                u * u * u * cp[0].0 + 3.0 * u * u * t * cp[1].0 + 3.0 * u * t * t * cp[2].0 + t * t * t * cp[3].0,
+                                u * u * u * cp[0].1 + 3.0 * u * u * t * cp[1].1 + 3.0 * u * t * t * cp[2].1 + t * t * t * cp[3].1,
+                            ),
+                            (
+                                3.0 * u * u * (cp[1].0 - cp[0].0) + 6.0 * u * t * (cp[2].0 - cp[1].0) + 3.0 * t * t * (cp[3].0 - cp[2].0),
+                                3.0 * u * u * (cp[1].1 - cp[0].1) + 6.0 * u * t * (cp[2].1 - cp[1].1) + 3.0 * t * t * (cp[3].1 - cp[2].1),
+                            ),
+                        )
+                    };
+                    let dl = (d.0 * d.0 + d.1 * d.1).sqrt();
+                    if dl < 1e-6 {
+                        continue;
+                    }
+                    let (nx, ny) = (-d.1 / dl, d.0 / dl);
+                    // near the offset curves themselves: 1 unit (plus the stroker's own 1 / (4 res)) inside them, for wide strokes
+                    let tol2 = 1.0 + 0.3 / (res as f64).abs().max(0.05);
+                    let mut offs: Vec<f64> = vec![-0.5 * (r - tol), 0.0, 0.5 * (r - tol)];
+                    if r > 8.0 * tol2 {
+                        offs.push(-(r - tol2));
+                        offs.push(r - tol2);
+                    }
+                    for off in offs {
+                        let (x, y) = (p.0 + nx * off, p.1 + ny * off);
+                        must += 1;
+                        if !covered(x, y) {
+                            uncovered += 1;
+                            if first[2] == 0 {
+                                first = [(x * 1000.0) as i128, (y * 1000.0) as i128, 8];
+                            }
                         }
                     }
                 }
